@@ -434,7 +434,7 @@ func (ck *Check) derefSite(ctx *Ctx, in ssa.Instruction, mkKey func(string) stri
 	if lk, isLk := ptr.(*ssa.Lookup); isLk {
 		for _, b := range fn.Blocks {
 			for _, i2 := range b.Instrs {
-				if mu, ok := i2.(*ssa.MapUpdate); ok && mu.Map == lk.X && ctx.Term(mu.Key).Key() == ctx.Term(lk.Index).Key() {
+				if mu, ok := i2.(*ssa.MapUpdate); ok && (mu.Map == lk.X || ctx.Term(mu.Map).Key() == ctx.Term(lk.X).Key()) && ctx.Term(mu.Key).Key() == ctx.Term(lk.Index).Key() {
 					// every path to the lookup either found the key or just inserted it
 					if dominatesInstr(mu, in) || ck.insertOrPresent(ctx, mu, lk) {
 						ck.ok("C20.R2", key, ck.P.instrPos(in), funcID(fn), "the dereferenced value ("+desc+") is known to be present", "a non-nil entry is stored under the same key whenever it was absent")
